@@ -549,6 +549,31 @@ fn explore(ctx: &mut Ctx) {
         eval(ctx, case(ty, "laws", vec![3, 3], vec![]));
     }
     ctx.exhaustive_part("antisymmetry / transitivity / (cmp==Equal <=> eq) over all triples of the 40 short sequences for cmp_slice_i8, cmp_bytes, cmp_slice_char, cmp_str, cmp_slice_str");
+    // long slices (beyond the exhaustive bound): equal except at exactly one position j (or nowhere), every
+    // length 1..=72 and every j, for every scalar type, str and &[&str]; index lists use value 0 / 1
+    for len in 1..=72usize {
+        for j in 0..=len {
+            let a: Vec<usize> = vec![0; len];
+            let mut b = a.clone();
+            if j < len {
+                b[j] = 1;
+            }
+            for (name, _, _) in SCALARS {
+                eval(ctx, case(name, "slice", a.clone(), b.clone()));
+                eval(ctx, case(name, "slice", b.clone(), a.clone()));
+            }
+            eval(ctx, case("str", "str", a.clone(), b.clone()));
+            eval(ctx, case("str", "str", b.clone(), a.clone()));
+            if len <= 40 {
+                eval(ctx, case("&[&str]", "strs", b.clone(), a.clone()));
+                eval(ctx, case("&[&[u8]]", "bytess", a.clone(), b.clone()));
+            }
+        }
+        if ctx.too_many() {
+            return;
+        }
+    }
+    ctx.exhaustive_part("long slices: lengths 1..=72 x a single differing position at every index (or none), both argument orders, 14 scalar types + str (+ &[&str], &[&[u8]] up to 40)");
     // random: longer slices over a 2-3 value alphabet
     let n = ctx.by_tier(40_000, 1_000_000);
     let strat = (0usize..14, proptest::collection::vec(0usize..3, 0..12), proptest::collection::vec(0usize..3, 0..12), any::<bool>(), any::<bool>(), 0usize..4);
